@@ -3,7 +3,7 @@ CONSTANTS
   NK = 3
   BatchSet = "two"
   Callers = {1}
-  Ops = {"Translate","Restart","RApply","RRecv","RReassign","RStop","RResume","RCut"}
+  Ops = {"Translate","RApply","RRecv","RReassign"}
   Depth = 5
   Recheck = TRUE
   DropInFlight = TRUE
